@@ -427,7 +427,7 @@ class MinMaxAggregator:
                 return [rule]
             blit_vars = set(collect_ast(blit, "Variable"))
             if len(blit_vars.intersection(inside_variables)) != 0:
-                rest_vars.update(blit_vars)
+                rest_vars.update(blit_vars & global_variables)  # not the local ones of conditions and aggregates
                 lits_with_vars.append(blit)
             else:
                 lits_without_vars.append(blit)
